@@ -237,3 +237,69 @@ func VerifMapStream(L int, par int, buf int, fault int) {
 	vAssert(src.afterClose == 0, "C09:mapstream/no-next-after-close")
 	vCover("mapstream")
 }
+
+// VerifMapStraggler: the latency pattern behind the read-ahead bound. The first item's f does not
+// finish until it is released, every later item is instantaneous, and the consumer is already
+// waiting in Next: with nothing yielded, the source must stop being read at
+// buffer + parallelism + 1 items. (What happens after the release is VerifMapIterator's and
+// VerifMapStream's business: the path ends at the quiescent point.)
+// args: kind (0 MapIterator, 1 MapStream), items L, parallelism, bufferSize
+//verif:case C14 quick VerifMapStraggler 0..1 6 2 2
+//verif:case C14 thorough VerifMapStraggler 0..1 7 2 3
+//verif:case C14 thorough VerifMapStraggler 0..1 7 3 0
+func VerifMapStraggler(kind int, L int, par int, buf int) {
+	yielded := 0
+	b := buf
+	if b < par {
+		b = par // the documented effective buffer size
+	}
+	release := make(chan struct{})
+	got := 0
+	pulled, over := 0, false
+	if kind == 0 {
+		src := &vCountIter{n: L, yielded: &yielded, limit: b + par + 1}
+		it := MapIterator[int, int](src, par, buf, func(x int) int {
+			if x == 0 {
+				<-release
+			}
+			return x*2 + 1
+		})
+		go func() {
+			for k := 0; k < L; k++ {
+				it.Next()
+				vAtomic(func() {
+					yielded++
+					got++
+				})
+			}
+		}()
+		vQuiesce()
+		pulled, over = src.pulled, src.over
+	} else {
+		src := &vStreamSrc{n: L, errPos: -1, yielded: &yielded, limit: b + par + 1}
+		ctx := context.Background()
+		out := MapStream[int, int](ctx, src, par, buf, func(ctx context.Context, x int) (int, error) {
+			if x == 0 {
+				<-release
+			}
+			return x*2 + 1, nil
+		})
+		go func() {
+			for k := 0; k < L; k++ {
+				out.Next(ctx)
+				vAtomic(func() {
+					yielded++
+					got++
+				})
+			}
+		}()
+		vQuiesce()
+		pulled, over = src.pulled, src.over
+	}
+	vAssert(got == 0, "mapstraggler/nothing-yielded-before-the-first-item")
+	vAssert(!over && pulled <= b+par+1, "mapstraggler/read-ahead-stops-at-buffer-plus-parallelism-plus-one")
+	vCover("mapstraggler")
+	if vNative() {
+		close(release) // let the native goroutines drain
+	}
+}
